@@ -81,6 +81,9 @@ func (fs *FS) wrapRelPathErr(err error) error {
 		errCopy.Path = strings.TrimPrefix(errCopy.Path, rootedPath)
 		errCopy.Path = strings.ReplaceAll(errCopy.Path, separator, slash)
 		errCopy.Path = strings.TrimPrefix(errCopy.Path, slash)
+		if errCopy.Path == "" && e.Path != "" {
+			errCopy.Path = "." // the root itself
+		}
 		err = &errCopy
 	case *os.LinkError:
 		errCopy := &hackpadfs.LinkError{Op: e.Op, Old: e.Old, New: e.New, Err: e.Err}
@@ -90,6 +93,12 @@ func (fs *FS) wrapRelPathErr(err error) error {
 		errCopy.New = strings.TrimPrefix(errCopy.New, rootedPath)
 		errCopy.New = strings.ReplaceAll(errCopy.New, separator, slash)
 		errCopy.New = strings.TrimPrefix(errCopy.New, slash)
+		if errCopy.Old == "" && e.Old != "" {
+			errCopy.Old = "."
+		}
+		if errCopy.New == "" && e.New != "" {
+			errCopy.New = "."
+		}
 		err = errCopy
 	}
 	return err
